@@ -225,6 +225,13 @@ pub fn judge(ctx: &mut Ctx, id: &str, input: &str, output: &str, c: &Cfg) {
                     ("NoSingleTable", Some("table")) => true,
                     _ => false,
                 };
+                if applies && x.obscure && x.form != ArgForm::Parens {
+                    // "… have none unless an index or method call follows": there the call is
+                    // written with parentheses (`f "s".x`, `f {}[1]`, `f "s":m()` are obscure)
+                    let sg = format!("C11:call-parens:{mode}:sugar-before-index-or-method:{}", x.sole.unwrap_or("?"));
+                    ctx.finding("call-parentheses", &sg, &format!("a single-{}-argument call directly followed by an index or method call is written without parentheses under call_parentheses={mode}", x.sole.unwrap_or("?")), case());
+                    return;
+                }
                 if applies && x.form == ArgForm::Parens && !x.obscure {
                     let input_wrapped = si
                         .as_ref()
@@ -293,7 +300,8 @@ fn option_combo(k: usize) -> (&'static str, &'static str, &'static str) {
     (cfg::QUOTES[k % 4], cfg::CALL_PARENS[(k / 4) % 5], cfg::SPACE_AFTER[(k / 20) % 4])
 }
 
-const TEMPLATES: [&str; 12] = [
+const TEMPLATES: [&str; 13] = [
+    "local a = f('a')[1]\nlocal b = f({})[k]\nlocal c = f 'a'[1]\nlocal d = g {}['x']\nlocal e = obj:m('s')[i].n\ncache('x')[k] = v\ncache 'y'[k].z = v\nlocal h = f('a')[1]('b')[2]\n",
     "f('a')\nf(\"b\")\nf([[c]])\nf({})\nf({ 1, 2 })\nf 'd'\nf \"e\"\nf {}\nf { x = 1 }\n",
     "local x = f('a').y\nlocal y = f('a'):m()\nlocal z = f({}).k\nlocal w = f({}):m('q')\nlocal v = f 'a'.y\nlocal u = g {}:m {}\n",
     "obj:method('s')\nobj:method({ 1 })\nobj:method 's'\nobj:method { 1 }\nobj.a.b:c('x'):d({}):e 'y'\n",
